@@ -1587,6 +1587,49 @@ async fn an_element_above_the_ceiling_is_outside_the_query_universe() {
 }
 
 #[tokio::test]
+async fn a_policy_allow_honours_its_own_classification_ceiling() {
+    // The same ceiling as above, carried by a Policy allow statement instead of
+    // a Grant. It is the same constraint and must stop at the same place.
+    let nexus = stocked("policy_ceiling").await;
+    two_classified_concepts(&nexus).await;
+    let gov = nexus.governance();
+    let reader = agent(gov, "kip:principal:reader").await;
+    gov.publish_policy(
+        PolicyDraft {
+            policy_id: "kip:policy:space".into(),
+            space_id: DEFAULT_SPACE.into(),
+            description: "Readers see public material".into(),
+            statements: vec![PolicyStatement {
+                effect: "allow".into(),
+                principals: vec![reader.clone()],
+                actions: vec!["read".into()],
+                constraints: AuthorityConstraints {
+                    max_classification: "public".into(),
+                    ..Default::default()
+                },
+                ..Default::default()
+            }],
+        },
+        SYSTEM_PRINCIPAL,
+    )
+    .await
+    .unwrap();
+    let mut space = nexus.store.get_space(DEFAULT_SPACE).await.unwrap();
+    space.default_policy_id = "kip:policy:space".into();
+    nexus.store.put_space(&space).await.unwrap();
+
+    let session = nexus.session(AuthContext::principal(&reader));
+    let response = run_as(
+        &session,
+        r#"FIND(?c.name) WHERE { ?c CONCEPT {type: "Person"} }"#,
+    )
+    .await;
+    assert_eq!(response.status, TopLevelStatus::Succeeded);
+    let rows = response.first_result().unwrap().as_array().unwrap().clone();
+    assert_eq!(rows, vec![serde_json::json!("Public Note")]);
+}
+
+#[tokio::test]
 async fn naming_a_hidden_element_by_id_answers_as_though_it_were_absent() {
     // §107: existence-neutral. A distinguishable "exists but hidden" is the
     // channel the whole check exists to close.
